@@ -637,3 +637,18 @@ for _f in _package_files():
         CORPUS[_p].append(E(f"sweep: every returned expression of {_f} through a temporary", (_f, "@tempret_all", "")))
         CORPUS[_p].append(E(f"sweep: every value stored to self.<attr> in {_f} through a temporary", (_f, "@tempattr_all", "")))
         CORPUS[_p].append(E(f"sweep: alias locals of {_f} (options = self.options ...) inlined", (_f, "@inline_all", "")))
+
+
+# ---------------------------------------------------------------------------
+# behaviour-preserving refactorings written by hand (pvs/selftest/refactors/*.diff: extract method, table-driven rewrites, loop
+# re-spellings, early returns ...; each was confirmed against the test-suite when it was written).  Every check must stay silent
+# on every one of them; a patch that no longer applies to the current tree is skipped.
+# ---------------------------------------------------------------------------
+def _refactor_patches():
+    from pathlib import Path as _P
+    return sorted(_P(__file__).with_name("refactors").glob("*.diff"))
+
+
+for _d in _refactor_patches():
+    for _p in CORPUS:
+        CORPUS[_p].append(E(f"refactoring patch {_d.stem}", ("", "@patch", str(_d))))
